@@ -176,10 +176,18 @@ def h_step_send(ctx, q, nout, nfrag):
         t, base, chunks, sentlog = _sym_sender(ctx, env, q, nout)
         _check_inv(ctx, t, "pre")
         n0 = len(t._sent_queue) + len(t._outbound_queue)
+        # the stream has carried any number of ordered messages before (16-bit sequence counter)
+        ssn = ctx.int("stream_seq", 0, 0xFFFF)
+        t._outbound_stream_seq[1] = ssn
         sx.run(t._send(1, 53, bytes(1200 * (nfrag - 1) + 7)))
         env.drain()
         ctx.reach("send-processed")
         _check_inv(ctx, t, "post")
+        new = (list(t._sent_queue) + list(t._outbound_queue))[n0:]
+        for c in new:
+            ctx.check(sx.eq(c.stream_seq, ssn), "fragments-carry-the-stream-sequence-number")
+            sx.to_bytes(c)  # must serialise for every 16-bit sequence number
+        ctx.check(sx.eq(t._outbound_stream_seq[1], (ssn + 1) & 0xFFFF), "stream-sequence-number-advances-modulo-2^16")
         ctx.check(len(t._sent_queue) + len(t._outbound_queue) == n0 + nfrag, "nothing-lost-between-queues")
         ctx.check(len(t._sent_queue) >= 1, "Q-something-outstanding-after-send")
         ctx.observe("flight", t._flight_size)
@@ -384,7 +392,7 @@ HARNESSES = {
     ),
     "step-sack": Harness("step-sack", h_step_sack, _step_jobs("sack"), style="STEP", bounds="sent queue 1..3 (quick) / 1..4, outbound queue 0..1 / 0..2; per chunk symbolic acked/retransmit/misses 0..2/book size 1..1200/sent count; cwnd, ssthresh, partial_bytes_acked, fast-recovery state, TSN origin symbolic; SACK with symbolic cumulative point and <=2 symbolic gap blocks", encoded=ENC, stubs=STUBS, twin="sack-processed", opts={"samples": 1}),
     "step-t3": Harness("step-t3", h_step_t3, _step_jobs("t3"), style="STEP", bounds="same state space; one T3 expiry followed by the transmit it schedules", encoded=ENC, stubs=STUBS, twin="t3-processed", opts={"samples": 1}),
-    "step-send": Harness("step-send", h_step_send, _step_jobs("send"), style="STEP", bounds="same state space; one _send of a 1- or 2-fragment (from the empty state also 5-fragment) message", encoded=ENC, stubs=STUBS, twin="send-processed", opts={"samples": 1}),
+    "step-send": Harness("step-send", h_step_send, _step_jobs("send"), style="STEP", bounds="same state space; one _send of a 1- or 2-fragment (from the empty state also 5-fragment) message on a stream whose 16-bit outbound sequence counter is symbolic", encoded=ENC, stubs=STUBS, twin="send-processed", opts={"samples": 1}),
     "bmc": Harness(
         "bmc",
         h_bmc,
